@@ -25,6 +25,10 @@ def rules(chk, db):
     # a malformed value inside an entry must fail in the value's own decoder: the frame would otherwise swallow the damage as padding
     from .. import encrules
     encrules.read_rules(chk, db, want=('GRD',))
+    # the hash a table is validated against is the documented one: SipHash-2-4 of the name under the published table keys
+    # (compile-time witnesses shared with C18: a key swap in the overload NOP_TABLE_NS uses goes unnoticed by the reference vectors)
+    from . import c18
+    c18.witnesses(chk)
     # the surplus of an entry is skipped through the reader's checked Skip: it must refuse what is not there
     chk.rule('G', 'the checked buffer reader refuses a transfer / skip that exceeds what remains', minimum=2)
     chk.rule('E', 'refusal returns ReadLimitReached and has no effect', minimum=2)
